@@ -1,5 +1,6 @@
 import DryocVerif.Model.SecretStream
 import DryocVerif.Proofs.SecretStream
+import DryocVerif.Proofs.SecretStreamExtra
 import DryocVerif.Proofs.Inst
 /-
 C03 — secretstream: push/pull round trip with state lockstep through every rekey branch,
@@ -16,7 +17,7 @@ every message, AD and tag byte.  Where a hypothesis is not needed it is simply n
 -/
 namespace DryocVerif.Properties.C03
 open DryocVerif DryocVerif.Model.Utils DryocVerif.Model.SecretStream
-open DryocVerif.Proofs.SecretStream (WF StateWF macKey pullBlock pullMac pullTag)
+open DryocVerif.Proofs.SecretStream (WF StateWF macKey pullBlock pullMac pullTag ctBody ctMac advanceRun)
 
 /-- a rejected pull leaves the stream state, the message buffer and the tag variable as they were -/
 theorem failed_pull_preserves (P : Prims) (s : State) (m : Bytes) (tagv : UInt8) (ct ad : Bytes)
@@ -39,7 +40,10 @@ theorem pull_push (P : Prims) (hP : WF P) (s : State) (m ad : Bytes) (tag : UInt
     pull P s buf tagv c ad = ⟨.ok m.length, m ++ buf.drop m.length, tag, s'⟩ :=
   Proofs.SecretStream.pull_push P hP s m ad tag c s' h buf tagv hb
 
-/-- `push` into a buffer of the right size always succeeds, with a ciphertext 17 bytes longer -/
+/-- The guard-free model function `push` (the Rust function WITHOUT its `MESSAGEBYTES_MAX` comparison)
+always succeeds on a buffer of the right size, with a ciphertext 17 bytes longer.  For the Rust function
+itself this holds only for messages of at most `MESSAGEBYTES_MAX` = 274877906816 bytes: see
+`pushChecked_ok` / `pushChecked_too_long` in section 14. -/
 theorem push_ok (P : Prims) (hP : WF P) (s : State) (m ad : Bytes) (tag : UInt8) :
     ∃ c s', push P s (m.length + 17) m ad tag = .ok (c, s') ∧ c.length = m.length + 17 := by
   have h := Proofs.SecretStream.push_eq P s m ad tag
@@ -503,5 +507,291 @@ theorem session_lockstep_concrete (header key : Bytes) (hh : 24 ≤ header.lengt
   (history_lockstep_concrete ops _ (initState_wf_concrete header key hh hk)).1
 
 end Concrete
+
+/-! ### 12. replayed, skipped, swapped, modified and wrong-AD ciphertexts: reductions to the MAC
+
+That such a ciphertext is REJECTED cannot be a theorem about the code for arbitrary `P.mac` (it is false
+for a MAC with collisions, e.g. `toyP`).  What is a theorem is the reduction: each acceptance exhibits a
+concrete Poly1305 forgery or collision.  `ctBody ct = (ct.drop 1).take (ct.length - 17)` and
+`ctMac ct = ct.drop (1 + (ct.length - 17))` are the slices `pull` takes. -/
+
+theorem ctBody_def (ct : Bytes) : ctBody ct = (ct.drop 1).take (ct.length - 17) := rfl
+theorem ctMac_def (ct : Bytes) : ctMac ct = ct.drop (1 + (ct.length - 17)) := rfl
+
+/-- What `push` hands out: the ciphertext is 17 bytes longer than the message, its last 16 bytes are the
+Poly1305 tag (key = key stream at this position) of the injective encoding of (AD, tag block, body), its
+first byte decrypts to the tag byte, and the new state is `advance` on exactly that authenticator. -/
+theorem push_parts (P : Prims) (hP : WF P) (s : State) (m ad : Bytes) (tag : UInt8) (c : Bytes) (s' : State)
+    (h : push P s (m.length + 17) m ad tag = .ok (c, s')) :
+    c.length = m.length + 17 ∧
+    ctMac c = P.mac (macKey P s) (macInput ad (pullBlock P s c) (ctBody c)) ∧
+    pullTag P s c = tag ∧ s' = advance P s (ctMac c) tag :=
+  Proofs.SecretStream.push_parts P hP s m ad tag c s' h
+
+/-- Modified ciphertext or AD at the same stream position.  `push` authenticated exactly one string `x`
+under the one-time key of this position.  If `pull`, at the same state, accepts ANY (ciphertext, AD) pair
+other than the genuine one, then the authenticator it carries is a valid Poly1305 tag under that key of a
+string `x' ≠ x`: a one-time-MAC forgery.  (Lengths below 2^64 as for every Rust slice.) -/
+theorem modified_accept_imp_forgery (P : Prims) (hP : WF P) (s : State) (m ad : Bytes) (tag : UInt8)
+    (c : Bytes) (s' : State) (h : push P s (m.length + 17) m ad tag = .ok (c, s'))
+    (ct' ad' : Bytes) (hne : (ct', ad') ≠ (c, ad))
+    (had : ad.length < 2 ^ 64) (had' : ad'.length < 2 ^ 64)
+    (hm : 64 + m.length < 2 ^ 64) (hct' : 47 + ct'.length < 2 ^ 64)
+    (buf : Bytes) (tagv : UInt8) (n : Nat) (hacc : (pull P s buf tagv ct' ad').res = .ok n) :
+    macInput ad' (pullBlock P s ct') (ctBody ct') ≠ macInput ad (pullBlock P s c) (ctBody c) ∧
+    ctMac ct' = P.mac (macKey P s) (macInput ad' (pullBlock P s ct') (ctBody ct')) ∧
+    ctMac c = P.mac (macKey P s) (macInput ad (pullBlock P s c) (ctBody c)) :=
+  Proofs.SecretStream.modified_accept_imp_forgery P hP s m ad tag c s' h ct' ad' hne had had' hm hct'
+    buf tagv n hacc
+
+/-- Wrong AD.  If the ciphertext pushed under `ad` is accepted at the same state under a different `ad'`,
+then two different strings have the same Poly1305 tag under the same one-time key. -/
+theorem wrong_ad_accept_imp_collision (P : Prims) (hP : WF P) (s : State) (m ad ad' : Bytes) (tag : UInt8)
+    (c : Bytes) (s' : State) (h : push P s (m.length + 17) m ad tag = .ok (c, s'))
+    (hne : ad' ≠ ad) (had : ad.length < 2 ^ 64) (had' : ad'.length < 2 ^ 64) (hm : 64 + m.length < 2 ^ 64)
+    (buf : Bytes) (tagv : UInt8) (n : Nat) (hacc : (pull P s buf tagv c ad').res = .ok n) :
+    ∃ x y, x ≠ y ∧ P.mac (macKey P s) x = P.mac (macKey P s) y :=
+  Proofs.SecretStream.wrong_ad_accept_imp_collision P hP s m ad ad' tag c s' h hne had had' hm buf tagv n hacc
+
+/-- … with the colliding pair written out: the two encodings differ exactly in the AD -/
+theorem wrong_ad_accept_collision_explicit (P : Prims) (hP : WF P) (s : State) (m ad ad' : Bytes) (tag : UInt8)
+    (c : Bytes) (s' : State) (h : push P s (m.length + 17) m ad tag = .ok (c, s'))
+    (hne : ad' ≠ ad) (had : ad.length < 2 ^ 64) (had' : ad'.length < 2 ^ 64) (hm : 64 + m.length < 2 ^ 64)
+    (buf : Bytes) (tagv : UInt8) (n : Nat) (hacc : (pull P s buf tagv c ad').res = .ok n) :
+    macInput ad' (pullBlock P s c) (ctBody c) ≠ macInput ad (pullBlock P s c) (ctBody c) ∧
+    P.mac (macKey P s) (macInput ad' (pullBlock P s c) (ctBody c))
+      = P.mac (macKey P s) (macInput ad (pullBlock P s c) (ctBody c)) :=
+  Proofs.SecretStream.wrong_ad_accept_collision_explicit P hP s m ad ad' tag c s' h hne had had' hm
+    buf tagv n hacc
+
+/-- Replay, skip, swap.  If the ciphertext pushed at state `s` is accepted by `pull` at ANY state `t`
+(under any AD), then its authenticator — the tag of `x` under the one-time key of position `s` — is also
+the Poly1305 tag, under the one-time key `macKey P t = chacha t.k t.nonce 0 32` of position `t`, of the
+string `pull` assembles at `t`.  The stream position enters only through the key and nonce. -/
+theorem accept_at_state_imp_mac_eq (P : Prims) (hP : WF P) (s : State) (m ad : Bytes) (tag : UInt8)
+    (c : Bytes) (s' : State) (h : push P s (m.length + 17) m ad tag = .ok (c, s'))
+    (t : State) (ad' buf : Bytes) (tagv : UInt8) (n : Nat) (hacc : (pull P t buf tagv c ad').res = .ok n) :
+    n = m.length ∧
+    ctMac c = P.mac (macKey P s) (macInput ad (pullBlock P s c) (ctBody c)) ∧
+    ctMac c = P.mac (macKey P t) (macInput ad' (pullBlock P t c) (ctBody c)) :=
+  Proofs.SecretStream.accept_at_state_imp_mac_eq P hP s m ad tag c s' h t ad' buf tagv n hacc
+
+/-- Replay: the ciphertext produced at `s` is presented again at the successor state `s'`.  Acceptance
+means that the old authenticator equals the MAC under the NEW key `macKey P s'` of the re-assembled input. -/
+theorem replay_accept_imp_mac_eq (P : Prims) (hP : WF P) (s : State) (m ad : Bytes) (tag : UInt8)
+    (c : Bytes) (s' : State) (h : push P s (m.length + 17) m ad tag = .ok (c, s'))
+    (ad' buf : Bytes) (tagv : UInt8) (n : Nat) (hacc : (pull P s' buf tagv c ad').res = .ok n) :
+    s' = advance P s (ctMac c) tag ∧
+    P.mac (macKey P s) (macInput ad (pullBlock P s c) (ctBody c))
+      = P.mac (macKey P s') (macInput ad' (pullBlock P s' c) (ctBody c)) := by
+  obtain ⟨_, h2, h3⟩ := accept_at_state_imp_mac_eq P hP s m ad tag c s' h s' ad' buf tagv n hacc
+  exact ⟨(push_parts P hP s m ad tag c s' h).2.2.2, by rw [← h2, ← h3]⟩
+
+/-- … and the new position really is another (key, nonce) pair: without rekey, `advance` keeps the key and
+changes the counter part of the nonce (with rekey it derives a new key, `advance_rekey_exact`). -/
+theorem advance_nonce_ne (P : Prims) (s : State) (hs : StateWF s) (mac : Bytes) (tag : UInt8)
+    (hnr : ¬ (tag.toNat &&& TAG_REKEY = TAG_REKEY ∨ le s.counter = 2 ^ 32 - 1)) :
+    (advance P s mac tag).k = s.k ∧ (advance P s mac tag).counter ≠ s.counter ∧
+      (advance P s mac tag).nonce ≠ s.nonce :=
+  Proofs.SecretStream.advance_nonce_ne P s hs mac tag hnr
+
+/-! ### 13. counters over a whole key epoch; `rekey` exactly -/
+
+theorem advanceRun_nil (P : Prims) (s : State) : advanceRun P s [] = s := rfl
+theorem advanceRun_cons (P : Prims) (s : State) (p : Bytes × UInt8) (r : List (Bytes × UInt8)) :
+    advanceRun P s (p :: r) = advanceRun P (advance P s p.1 p.2) r := rfl
+
+/-- Inside a key epoch — any run of `k = steps.length` accepted messages (each an authenticator and a tag
+byte; `advanceRun` iterates `advance`), none with the REKEY bit, starting at counter value `c` with
+`c + k < 2^32` — the state after `i` steps still has the same key and its counter bytes are
+`toLE 4 (c + i)`.  The counters are `c, c+1, …, c+k`, pairwise distinct, and so are the nonces: no
+(key, nonce) pair serves two messages of the epoch.  `WF P` is not needed. -/
+theorem counters_distinct_within_epoch (P : Prims) (s : State) (hs : StateWF s)
+    (steps : List (Bytes × UInt8))
+    (hnt : ∀ p ∈ steps, ¬ (p.2.toNat &&& TAG_REKEY = TAG_REKEY))
+    (hk : le s.counter + steps.length < 2 ^ 32) :
+    (∀ i, i ≤ steps.length →
+        StateWF (advanceRun P s (steps.take i)) ∧
+        (advanceRun P s (steps.take i)).k = s.k ∧
+        (advanceRun P s (steps.take i)).counter = toLE 4 (le s.counter + i)) ∧
+    (∀ i j, i ≤ steps.length → j ≤ steps.length → i ≠ j →
+        (advanceRun P s (steps.take i)).counter ≠ (advanceRun P s (steps.take j)).counter ∧
+        (advanceRun P s (steps.take i)).nonce ≠ (advanceRun P s (steps.take j)).nonce) :=
+  Proofs.SecretStream.counters_distinct_within_epoch P s hs steps hnt hk
+
+/-- the state `push` ends in is one `advance` step, so runs of pushes are `advanceRun`s -/
+theorem push_state_is_advance (P : Prims) (hP : WF P) (s : State) (m ad : Bytes) (tag : UInt8) (c : Bytes)
+    (s' : State) (h : push P s (m.length + 17) m ad tag = .ok (c, s')) :
+    s' = advanceRun P s [(ctMac c, tag)] :=
+  (push_parts P hP s m ad tag c s' h).2.2.2
+
+/-- `crypto_secretstream_xchacha20poly1305_rekey`, exactly: with `ks` the first 40 key-stream bytes under
+the current key and nonce (block counter 0), the new key is `k ⊕ ks[0..32]`, the new inner nonce is
+`inonce ⊕ ks[32..40]`, the counter is reset to `01 00 00 00`. -/
+theorem rekey_exact (P : Prims) (hP : WF P) (s : State) (hs : StateWF s) :
+    (rekey P s).k = xorBytes s.k ((P.chacha s.k s.nonce 0 40).take 32) ∧
+    (rekey P s).nonce = [1, 0, 0, 0] ++ xorBytes s.inonce ((P.chacha s.k s.nonce 0 40).drop 32) ∧
+    (rekey P s).counter = [1, 0, 0, 0] ∧
+    (rekey P s).inonce = xorBytes s.inonce ((P.chacha s.k s.nonce 0 40).drop 32) :=
+  Proofs.SecretStream.rekey_exact P hP s hs
+
+/-- the key after `rekey` differs from the key before unless the first 32 key-stream bytes are all zero -/
+theorem rekey_key_eq_iff (P : Prims) (hP : WF P) (s : State) (hs : StateWF s) :
+    (rekey P s).k = s.k ↔ (P.chacha s.k s.nonce 0 40).take 32 = zeros 32 :=
+  Proofs.SecretStream.rekey_key_eq_iff P hP s hs
+
+/-- the rekey `advance` performs (REKEY bit in the tag, or counter at `ff ff ff ff`), exactly: the counter
+is incremented and the authenticator xored into the inner nonce FIRST, the key stream is taken under that
+intermediate nonce, then key and inner nonce are replaced as in `rekey_exact` and the counter is 1. -/
+theorem advance_rekey_exact (P : Prims) (hP : WF P) (s : State) (hs : StateWF s) (mac : Bytes) (tag : UInt8)
+    (hrk : tag.toNat &&& TAG_REKEY = TAG_REKEY ∨ le s.counter = 2 ^ 32 - 1) :
+    let n1 := incrementBytes s.counter ++ xorBuf s.inonce mac
+    let ks := P.chacha s.k n1 0 40
+    (advance P s mac tag).k = xorBytes s.k (ks.take 32) ∧
+    (advance P s mac tag).nonce = [1, 0, 0, 0] ++ xorBytes (xorBuf s.inonce mac) (ks.drop 32) ∧
+    (advance P s mac tag).counter = [1, 0, 0, 0] :=
+  Proofs.SecretStream.advance_rekey_exact P hP s hs mac tag hrk
+
+/-! ### 14. the `MESSAGEBYTES_MAX` guards of the Rust functions
+
+`push` / `pull` of the model omit the comparisons with
+`CRYPTO_SECRETSTREAM_XCHACHA20POLY1305_MESSAGEBYTES_MAX`; `pushChecked` / `pullChecked` have them.  Below
+the bound they are the same functions, so every theorem above transfers; above it the Rust returns `Err`. -/
+
+/-- the constant: `min(2^64 − 1 − 17, 64·(2^32 − 2))` = 274877906816 (64-bit target) -/
+theorem MESSAGEBYTES_MAX_eq : MESSAGEBYTES_MAX = 274877906816 :=
+  Proofs.SecretStream.MESSAGEBYTES_MAX_eq
+
+/-- for messages within the bound the guarded push is the model's `push` -/
+theorem pushChecked_eq_push (P : Prims) (s : State) (ctLen : Nat) (m ad : Bytes) (tag : UInt8)
+    (h : m.length ≤ MESSAGEBYTES_MAX) : pushChecked P s ctLen m ad tag = push P s ctLen m ad tag :=
+  Proofs.SecretStream.pushChecked_eq_push P s ctLen m ad tag h
+
+/-- a longer message is an error (state and buffer are not outputs of a failed push) -/
+theorem pushChecked_too_long (P : Prims) (s : State) (ctLen : Nat) (m ad : Bytes) (tag : UInt8)
+    (h : MESSAGEBYTES_MAX < m.length) : pushChecked P s ctLen m ad tag = .err :=
+  Proofs.SecretStream.pushChecked_too_long P s ctLen m ad tag h
+
+/-- for ciphertexts within the bound the guarded pull is the model's `pull` -/
+theorem pullChecked_eq_pull (P : Prims) (s : State) (buf : Bytes) (tagv : UInt8) (ct ad : Bytes)
+    (h : ct.length ≤ MESSAGEBYTES_MAX) : pullChecked P s buf tagv ct ad = pull P s buf tagv ct ad :=
+  Proofs.SecretStream.pullChecked_eq_pull P s buf tagv ct ad h
+
+/-- a longer ciphertext is an error that touches nothing -/
+theorem pullChecked_too_long (P : Prims) (s : State) (buf : Bytes) (tagv : UInt8) (ct ad : Bytes)
+    (h : MESSAGEBYTES_MAX < ct.length) : pullChecked P s buf tagv ct ad = ⟨.err, buf, tagv, s⟩ :=
+  Proofs.SecretStream.pullChecked_too_long P s buf tagv ct ad h
+
+/-- `push_ok`, honestly: the Rust push succeeds on a buffer of the right size exactly for messages of at
+most `MESSAGEBYTES_MAX` bytes -/
+theorem pushChecked_ok (P : Prims) (hP : WF P) (s : State) (m ad : Bytes) (tag : UInt8)
+    (hm : m.length ≤ MESSAGEBYTES_MAX) :
+    ∃ c s', pushChecked P s (m.length + 17) m ad tag = .ok (c, s') ∧ c.length = m.length + 17 := by
+  rw [pushChecked_eq_push P s _ m ad tag hm]
+  exact push_ok P hP s m ad tag
+
+theorem pushChecked_ok_iff (P : Prims) (hP : WF P) (s : State) (m ad : Bytes) (tag : UInt8) :
+    (∃ c s', pushChecked P s (m.length + 17) m ad tag = .ok (c, s')) ↔ m.length ≤ MESSAGEBYTES_MAX := by
+  constructor
+  · rintro ⟨c, s', h⟩
+    apply Classical.byContradiction
+    intro hn
+    rw [pushChecked_too_long P s _ m ad tag (by omega)] at h
+    cases h
+  · intro hm
+    obtain ⟨c, s', h, _⟩ := pushChecked_ok P hP s m ad tag hm
+    exact ⟨c, s', h⟩
+
+/-- a rejected guarded pull leaves state, message buffer and tag variable as they were -/
+theorem failed_pullChecked_preserves (P : Prims) (s : State) (m : Bytes) (tagv : UInt8) (ct ad : Bytes)
+    (h : (pullChecked P s m tagv ct ad).res = .err) :
+    (pullChecked P s m tagv ct ad).st = s ∧ (pullChecked P s m tagv ct ad).buf = m ∧
+      (pullChecked P s m tagv ct ad).tag = tagv := by
+  rcases Proofs.SecretStream.pullChecked_cases P s m tagv ct ad with e | e
+  · rw [e] at h ⊢; exact failed_pull_preserves P s m tagv ct ad h
+  · rw [e]; exact ⟨rfl, rfl, rfl⟩
+
+/-- round trip for the guarded functions: holds when the CIPHERTEXT (message + 17 bytes) is within the bound -/
+theorem pullChecked_pushChecked (P : Prims) (hP : WF P) (s : State) (m ad : Bytes) (tag : UInt8) (c : Bytes)
+    (s' : State) (h : pushChecked P s (m.length + 17) m ad tag = .ok (c, s'))
+    (hm : m.length + 17 ≤ MESSAGEBYTES_MAX)
+    (buf : Bytes) (tagv : UInt8) (hb : m.length ≤ buf.length) :
+    pullChecked P s buf tagv c ad = ⟨.ok m.length, m ++ buf.drop m.length, tag, s'⟩ := by
+  rw [pushChecked_eq_push P s _ m ad tag (by omega)] at h
+  have hl := Proofs.SecretStream.push_ct_length P hP s m ad tag c s' h
+  rw [pullChecked_eq_pull P s buf tagv c ad (by omega)]
+  exact pull_push P hP s m ad tag c s' h buf tagv hb
+
+/-- The bound cannot be relaxed to the message length: the Rust `pull` compares `ciphertext.len()` (not
+`mlen` as libsodium does) with `MESSAGEBYTES_MAX`, so a message of more than `MESSAGEBYTES_MAX − 17` and at
+most `MESSAGEBYTES_MAX` bytes is pushed successfully and its genuine ciphertext is then REJECTED by `pull`
+(17 message lengths just below 256 GiB; documented deviation from libsodium, not a safety issue). -/
+theorem pushed_but_not_pullable (P : Prims) (hP : WF P) (s : State) (m ad : Bytes) (tag : UInt8)
+    (h1 : MESSAGEBYTES_MAX < m.length + 17) (h2 : m.length ≤ MESSAGEBYTES_MAX) :
+    ∃ c s', pushChecked P s (m.length + 17) m ad tag = .ok (c, s') ∧
+      ∀ buf tagv, pullChecked P s buf tagv c ad = ⟨.err, buf, tagv, s⟩ := by
+  obtain ⟨c, s', h, hl⟩ := pushChecked_ok P hP s m ad tag h2
+  exact ⟨c, s', h, fun buf tagv => pullChecked_too_long P s buf tagv c ad (by omega)⟩
+
+/-! ### 15. non-vacuity witnesses for sections 12–14 -/
+
+/-- `wrong_ad_accept_imp_collision`: all hypotheses hold for the toy MAC (which looks at the first 16 bytes
+only, so two ADs with the same first 16 bytes collide) — and the theorem then produces the collision -/
+example : ∃ c s', push toyP toyS 18 [0x41] (zeros 16 ++ [1]) 0 = .ok (c, s') ∧
+    (zeros 16 ++ [2] : Bytes) ≠ zeros 16 ++ [1] ∧
+    (pull toyP toyS [0] 0 c (zeros 16 ++ [2])).res = .ok 1 :=
+  ⟨_, _, rfl, by decide, by decide⟩
+
+example : ∃ x y, x ≠ y ∧ toyP.mac (macKey toyP toyS) x = toyP.mac (macKey toyP toyS) y :=
+  wrong_ad_accept_imp_collision toyP toyP_wf toyS [0x41] (zeros 16 ++ [1]) (zeros 16 ++ [2]) 0 _ _ rfl
+    (by decide) (by decide) (by decide) (by decide) [0] 0 1 (by decide)
+
+/-- `modified_accept_imp_forgery`: a ciphertext with a flipped body byte accepted by the toy MAC -/
+example : ∃ c s', push toyP toyS 18 [0x41] (zeros 16) 0 = .ok (c, s') ∧
+    (c.take 1 ++ [0x99] ++ c.drop 2, zeros 16) ≠ (c, zeros 16) ∧
+    (pull toyP toyS [0] 0 (c.take 1 ++ [0x99] ++ c.drop 2) (zeros 16)).res = .ok 1 :=
+  ⟨_, _, rfl, by decide, by decide⟩
+
+/-- `replay_accept_imp_mac_eq` / `accept_at_state_imp_mac_eq`: the toy primitives ignore key and nonce, so
+the replay at the successor state IS accepted — the hypotheses are satisfiable, and only the MAC stands
+between a replay and acceptance -/
+example : ∃ c s', push toyP { toyS with nonce := [5, 0, 0, 0] ++ zeros 8 } 18 [0x41] [0x42] 0 = .ok (c, s') ∧
+    (pull toyP s' [0] 0 c [0x42]).res = .ok 1 :=
+  ⟨_, _, rfl, by decide⟩
+
+/-- `advance_nonce_ne`: tag 0 at counter 5 is a no-rekey step -/
+example : ¬ ((0 : UInt8).toNat &&& TAG_REKEY = TAG_REKEY ∨
+    le ({ toyS with nonce := [5, 0, 0, 0] ++ zeros 8 } : State).counter = 2 ^ 32 - 1) := by decide
+
+/-- `counters_distinct_within_epoch`: a three-step run from counter `fd ff ff ff` uses the whole room up to
+`2^32 − 1`; the counters are as stated … -/
+def toyRunS : State := { k := zeros 32, nonce := [0xfc, 0xff, 0xff, 0xff] ++ zeros 8 }
+def toySteps : List (Bytes × UInt8) := [([1, 2], 0), (zeros 16, 1), ([7], 0xfd)]
+
+example : StateWF toyRunS ∧ (∀ p ∈ toySteps, ¬ (p.2.toNat &&& TAG_REKEY = TAG_REKEY)) ∧
+    le toyRunS.counter + toySteps.length < 2 ^ 32 := by
+  refine ⟨⟨by decide, by decide⟩, by decide, by decide⟩
+
+example : (List.range 4).map (fun i => (advanceRun toyP toyRunS (toySteps.take i)).counter)
+    = [[0xfc, 0xff, 0xff, 0xff], [0xfd, 0xff, 0xff, 0xff], [0xfe, 0xff, 0xff, 0xff], [0xff, 0xff, 0xff, 0xff]] := by
+  decide
+
+/-- … and the bound `c + k < 2^32` is sharp: one more step wraps, rekeys and restarts at 1 -/
+example : (advanceRun toyP toyRunS (toySteps ++ [([], 0)])).counter = [1, 0, 0, 0] ∧
+    (advanceRun toyP toyRunS (toySteps ++ [([], 0)])).k ≠ toyRunS.k := by
+  constructor <;> decide
+
+/-- `rekey_exact` / `advance_rekey_exact` on the toy state: new key = old key ⊕ key stream -/
+example : (rekey toyP toyS).k = List.replicate 32 1 ∧ (rekey toyP toyS).nonce = [1, 0, 0, 0] ++ List.replicate 8 1 := by
+  constructor <;> decide
+
+/-- `pushChecked` / `pullChecked`: both sides of the bound are inhabited (a list of any length exists) -/
+example : ∃ m : Bytes, m.length ≤ MESSAGEBYTES_MAX := ⟨[0x41], by decide⟩
+example : ∃ m : Bytes, MESSAGEBYTES_MAX < m.length := ⟨List.replicate (MESSAGEBYTES_MAX + 1) 0, by simp⟩
+example : ∃ m : Bytes, MESSAGEBYTES_MAX < m.length + 17 ∧ m.length ≤ MESSAGEBYTES_MAX :=
+  ⟨List.replicate MESSAGEBYTES_MAX 0, by simp⟩
+
+example : pushChecked toyP toyS 18 [0x41] [0x42] 0 = push toyP toyS 18 [0x41] [0x42] 0 :=
+  pushChecked_eq_push toyP toyS 18 [0x41] [0x42] 0 (by decide)
 
 end DryocVerif.Properties.C03
